@@ -434,7 +434,8 @@ def rule_R5(ctx):
                           "observed.%s vs self.%s" % (fld, fld),
                           "component %s is not applied to (observed, signature) of the same field" % nm, ctx.loc(b, blk))
             # `?` propagation: one FromResidual::from_residual (or explicit None) exit per component
-            res = [t for _, t in Q.calls(b, "from_residual") if t["dest"]["l"] == 0]
+            # (a `?` inside a helper that holds part of the sum leaves through the helper's return value first: any destination)
+            res = [t for _, t in Q.calls(b, "from_residual")]
             none_rets = [s for s in TB.return_sites(b, P, resolve=True) if _score_of(s[2], {})[0] == "None"]
             nprop = len(res) + len(none_rets)
             ctx.check(nprop >= len(want), "R5", inst + ":propagates-none", "%d None-propagating exits for %d components" % (nprop, len(want)),
